@@ -55,7 +55,8 @@ PROPS = {
     "C06": P("Props/C06.v", [("farm-scn", 64, 400), ("manyfarms-scn", 16, 120), ("probe-scn", 16, 64)],
         "PARTIAL. Proved: every reward entry is floor(rate*share) for an epoch strictly after the claimant's cursor, from the farm's "
         "start, before its end, within the farm's remaining budget; claimed amounts only grow and never exceed the funded amount; a "
-        "claim moves the cursor to its bound (no epoch paid twice). Not proved: sum over users <= emission per farm-epoch and "
+        "claim moves the cursor to its bound (no epoch paid twice). Per farm-epoch: sum over ANY users of floor(rate*w_i/total) <= rate whenever sum w_i <= total "
+        "(C06_epoch_emission_bound, and x epochs over any span) - conditional on C10's weight clause. Not proved unconditionally: sum over users <= emission and "
         "'no claim makes another user's rightful claim fail' — false of the unchanged code in the recorded classes F-until, F-sat, "
         "F-clamp (witness scripts replayed on the implementation every run) and otherwise covered by the correspondence only."),
     "C07": P("Props/C07.v", [("farm-scn", 64, 400), ("manyfarms-scn", 16, 120), ("probe-scn", 16, 64)],
